@@ -980,3 +980,10 @@ def add_rules(model, rng, n_rules=None, conflicts=0.2):
             rules.append({"sets": sets, "subs": subs})
     model["rules"] = {"processing": rng.choice(["first", "first", "last"]), "rules": rules} if rules else None
     return model
+
+
+def source_flags(model, rng):
+    """The source itself asks for compilation options (ufo2ft filters in the lib): every entry point has to honour them alike."""
+    names = rng.sample(["decomposeTransformedComponents", "flattenComponents", "propagateAnchors", "eraseOpenCorners"], rng.randint(1, 2))
+    model["lib"]["com.github.googlei18n.ufo2ft.filters"] = [{"name": n, "pre": True} for n in names]
+    return model
